@@ -182,6 +182,13 @@ theorem closed_world_params : Gen.Handlers.handlerParams = modelledParams := by 
 /-- the primitive touches in the handler bodies are the ones the model was transcribed from -/
 theorem closed_world_touches : Gen.Handlers.handlerTouches = modelledTouches := by decide
 
+/-- building the class of a proxy after the peer's HANDLE_INSPECT answer resolves the peer-chosen dotted name by lookups in
+`sys.modules` and one `getattr` (`classLookup`): the calls of `netref.class_factory` are the modelled ones, none imports -/
+theorem closed_world_class_factory : Gen.Handlers.classFactoryCalls = modelledClassFactoryCalls := by decide
+
+/-- `classLookup` tries the whole name, then every dotted prefix from the right, e.g. for `a.b.C` -/
+example : dotCuts [97, 46, 98, 46, 67] = [([97, 46, 98, 46, 67], []), ([97, 46, 98], [67]), ([97], [98, 46, 67])] := by decide
+
 /-! ### non-vacuity: concrete histories, evaluated by the kernel -/
 
 /-- an environment: the root's id pack (for GETROOT), "the type has no hook", "no exposed twin" (for `secret`), then for
